@@ -862,6 +862,7 @@ type gencodeUnit struct {
 	pkgPath string            // import path of the generated package
 	known   map[string]bool   // predicted known-finding classes of this schema
 	hybrid  bool
+	names   string // accessor method names (gencodeAccessorNames)
 }
 
 func gencodeDeps(fd *descriptorpb.FileDescriptorProto) []*descriptorpb.FileDescriptorProto {
@@ -916,6 +917,7 @@ func gencodeRun(fd *descriptorpb.FileDescriptorProto, param string) (resp *plugi
 	}
 	hybrid = gencodeFileIsHybrid(gen) // (generation rewrites the API level of hybrid files and messages)
 	gencodeLastKnown = gencodeKnown(fd, gen)
+	gencodeLastNames = gencodeAccessorNames(gen)
 	for _, f := range gen.Files {
 		if f.Generate {
 			gengo.GenerateFile(gen, f)
@@ -938,7 +940,8 @@ func gencodeRun(fd *descriptorpb.FileDescriptorProto, param string) (resp *plugi
 //	FQ1  a comment line that reads as a Go build constraint ("+build ...", "go:build ...")
 //	FQ2  a field whose Go name is ProtoReflect
 //	FQ3  an enum value called "name" or "value" (collides with the <Enum>_name / <Enum>_value maps)
-//	FQ4  two package-level declarations with the same underscore-joined Go name (M.X and M_X, M_builder)
+//	FQ4  two package-level declarations with the same underscore-joined Go name (M.X and M_X, M_builder,
+//	     a nested enum value M_Value and the oneof wrapper type M_Value, ...), by protogen's own GoIdents
 //	FQ5  an enum that sets features.enum_type itself (internal/filedesc only inherits enum features)
 //	FQ6  a comment that consists of blank lines only (the single go/printer pass is then not a gofmt fixed point)
 func gencodeKnown(fd *descriptorpb.FileDescriptorProto, gen *protogen.Plugin) map[string]bool {
@@ -962,7 +965,12 @@ func gencodeKnown(fd *descriptorpb.FileDescriptorProto, gen *protogen.Plugin) ma
 	walkE = func(es []*protogen.Enum) {
 		for _, e := range es {
 			pkgIdents[e.GoIdent.GoName]++
+			pkgIdents[e.GoIdent.GoName+"_name"]++
+			pkgIdents[e.GoIdent.GoName+"_value"]++
 			for _, v := range e.Values {
+				if v.Desc.Name() != "name" && v.Desc.Name() != "value" { // (that collision is FQ3)
+					pkgIdents[v.GoIdent.GoName]++
+				}
 				if v.Desc.Name() == "name" || v.Desc.Name() == "value" {
 					known["FQ3"] = true
 				}
@@ -980,6 +988,9 @@ func gencodeKnown(fd *descriptorpb.FileDescriptorProto, gen *protogen.Plugin) ma
 			}
 			pkgIdents[m.GoIdent.GoName]++
 			pkgIdents[m.GoIdent.GoName+"_builder"]++
+			for _, x := range m.Extensions {
+				pkgIdents["E_"+x.GoIdent.GoName]++
+			}
 			// every identifier protogen derives for this message (struct fields and accessor
 			// methods, with protogen's own final names); a duplicate is the F12 family
 			ids := map[string]int{}
@@ -990,6 +1001,9 @@ func gencodeKnown(fd *descriptorpb.FileDescriptorProto, gen *protogen.Plugin) ma
 			}
 			open := m.APILevel != gofeaturespb.GoFeatures_API_OPAQUE
 			for _, f := range m.Fields {
+				if f.Oneof != nil && !f.Oneof.Desc.IsSynthetic() {
+					pkgIdents[f.GoIdent.GoName]++ // oneof wrapper type
+				}
 				if f.GoName == "ProtoReflect" {
 					known["FQ2"] = true
 				}
@@ -1033,6 +1047,10 @@ func gencodeKnown(fd *descriptorpb.FileDescriptorProto, gen *protogen.Plugin) ma
 		if f.Generate {
 			walkE(f.Enums)
 			walkM(f.Messages)
+			for _, x := range f.Extensions {
+				pkgIdents["E_"+x.GoIdent.GoName]++ // extension variables are called E_<name>
+			}
+			pkgIdents[f.GoDescriptorIdent.GoName]++
 		}
 	}
 	for _, n := range pkgIdents {
@@ -1044,6 +1062,41 @@ func gencodeKnown(fd *descriptorpb.FileDescriptorProto, gen *protogen.Plugin) ma
 }
 
 var gencodeLastKnown map[string]bool
+var gencodeLastNames string
+
+// gencodeAccessorNames lists, for every scalar singular field, the accessor method names that
+// protogen derives: "<message full name>\t<number>\t<Get>\t<compat Get>\t<Set>\t<Has>\t<Clear>".
+func gencodeAccessorNames(gen *protogen.Plugin) string {
+	var sb strings.Builder
+	var walk func(ms []*protogen.Message)
+	walk = func(ms []*protogen.Message) {
+		for _, m := range ms {
+			if m.Desc.IsMapEntry() {
+				continue
+			}
+			for _, f := range m.Fields {
+				if f.Desc.IsList() || f.Desc.IsMap() || f.Desc.Message() != nil {
+					continue
+				}
+				get, compat := f.MethodName("Get")
+				set, _ := f.MethodName("Set")
+				has, clr := "", ""
+				if f.Desc.HasPresence() {
+					has, _ = f.MethodName("Has")
+					clr, _ = f.MethodName("Clear")
+				}
+				fmt.Fprintf(&sb, "%s\t%d\t%s\t%s\t%s\t%s\t%s\n", m.Desc.FullName(), f.Desc.Number(), get, compat, set, has, clr)
+			}
+			walk(m.Messages)
+		}
+	}
+	for _, f := range gen.Files {
+		if f.Generate {
+			walk(f.Messages)
+		}
+	}
+	return sb.String()
+}
 
 func gencodeRepoRoot() string {
 	if v := os.Getenv("VERIF_REPO"); v != "" {
@@ -1223,6 +1276,7 @@ func famGencode(c *Ctx) {
 			}
 			u := &gencodeUnit{idx: i, seed: seed, level: lv.name, tok: tok, fd: fd, files: map[string]string{}, pkgPath: "verifgen/" + tok}
 			u.known = gencodeLastKnown
+			u.names = gencodeLastNames
 			_ = gen
 			// ---- (b) file names, gofmt-clean, parses
 			ok := true
@@ -1394,6 +1448,7 @@ func famGencode(c *Ctx) {
 		for _, u := range us {
 			fmt.Fprintf(&imports, "\t_ %q\n", u.pkgPath)
 			must(os.WriteFile(filepath.Join(sdir, u.tok+".binpb"), gencodeMarshal(u.fd), 0o644))
+			must(os.WriteFile(filepath.Join(sdir, u.tok+".names"), []byte(u.names), 0o644))
 		}
 		mainSrc := strings.Replace(gencodeMainSrc, "\t// IMPORTS\n", imports.String(), 1)
 		must(os.MkdirAll(filepath.Join(root, "cmp"), 0o755))
